@@ -104,4 +104,44 @@ def getDependencies (g : Graph) (roots : List String) : Except String (List Nat)
   | .error e => .error e
   | .ok st => .ok st.out
 
+/-! ### `libcnb-cargo/src/package/command.rs` `execute`: which buildpacks are packaged, in which order
+
+`execute` builds the graph of the whole workspace (`build_libcnb_buildpacks_dependency_graph`: the libcnb.rs and
+composite buildpack directories in the order of the directory walk), picks `root_nodes` (the first node whose
+directory is the current directory; else, if the current directory is the workspace root, every node in graph
+order; else none), calls `get_dependencies`, refuses an empty result (`NoBuildpacksFound`) and then runs
+`for node in build_order.iter()` — `package_buildpack` is called once per element, in exactly that order. -/
+
+/-- a buildpack directory as `execute` sees it: the graph node and the directory it was found in (relative to the
+workspace root, `.` = the root itself) -/
+structure Located where
+  node : Node
+  dir : String
+deriving Repr, DecidableEq
+
+inductive ExecErr where
+  /-- `CannotBuildBuildpackDependencyGraph(CreateDependencyGraphError(MissingDependency d))` -/
+  | missingDependency (d : String)
+  /-- `CannotGetDependencies(UnknownRootNode r)` -/
+  | unknownRoot (r : String)
+  /-- `NoBuildpacksFound` -/
+  | noBuildpacksFound
+deriving Repr, DecidableEq
+
+/-- `root_nodes`, as ids -/
+def rootNodes (bps : List Located) (inv : String) : List String :=
+  match bps.find? (fun b => b.dir = inv) with
+  | some b => [b.node.id]
+  | none => if inv = "." then bps.map (·.node.id) else []
+
+/-- the ids handed to `package_buildpack`, in the order of the calls (`bps` in directory-walk order, `inv` the
+current directory relative to the workspace root) -/
+def packagingOrder (bps : List Located) (inv : String) : Except ExecErr (List String) :=
+  match createGraph (bps.map (·.node)) with
+  | .error d => .error (.missingDependency d)
+  | .ok g =>
+    match getDependencies g (rootNodes bps inv) with
+    | .error r => .error (.unknownRoot r)
+    | .ok out => if out.isEmpty then .error .noBuildpacksFound else .ok (out.map (fun i => g.ids.getD i ""))
+
 end CnbVerif.DepGraph
